@@ -15,6 +15,11 @@ CHECKS = {
         note=TB + "PARTIAL: the planner's search (which literals get decided) is not modelled; the theorem's hypothesis 'atoms decided' is exactly what the implementation does not guarantee outside the core fragment - recorded known finding `undecided-constraint-literals` (!=, negated compounds, ^, boolean ==/!= may leave atoms undecided and the exposed values then violate the constraint).",
         technique="Lean 4 theorems (Tseitin encoding sound for partial assignments at a BCP fixpoint, by mutual induction over formulas on top of C13) + end-to-end exact solution oracle on generated programs in every solver configuration",
         design="§6 C01"),
+    "C02": dict(
+        text="Logical skeleton (unsolvable/inconsistent is thrown only on a root-level false from new_clause/propagate/next): 4 theorems C02_* prove for ALL constraint lists: a satisfying assignment of the atoms extends to a total model of the whole encoded network with every constraint literal true (encoders lose no solution), hence asserting the literals and propagating at root level never answers false; in every reachable state of the full SAT-core model (learning, backjumping, simplify_db) a false answer means the ADDED clauses are unsatisfiable; next only excludes the current decisions. End to end against the REAL solver in every configuration of the tier: (a) planted programs of six families must not be rejected, (b) unplanted constraint networks are judged by an independent complete decision procedure (z3): `unsolvable` only when unsat, (c) metamorphic variants (reordered, renamed, tautologies added) get the base program's verdict.",
+        note=TB + "PARTIAL: the heuristic search, the flaw graph and the smart types' resolvers are not modelled - their completeness is what (a)-(c) sample. z3 4.8.12 trusted as oracle of the constraint fragment. Programs exceeding the per-program budget are outside the property's quantifier and only counted.",
+        technique="Lean 4 theorems (model-preservation of the encoders, soundness of negative answers of the CDCL model) + planted / independently decided / metamorphic end-to-end oracles in every solver configuration",
+        design="§6 C02"),
     "C04": dict(
         text="The pulse sweep of state_variable.cpp (detection loop of get_current_incs, extract_timelines) is modelled in Lean (OratioModel/Solver/Sweep.lean); 5 theorems C04_* prove for ANY number of atoms with epsilon-rational times: the sweep reports a pair iff the two atoms' [start,end) intersect (so an empty report means no overlap anywhere), every reported pair really overlaps, the ordering resolvers separate a pair, and each timeline segment lists exactly the atoms covering it. Tie: the implementation's extracted timelines are compared segment by segment with svTimeline run by the native Lean driver on the solution's atoms, svPeaks must be empty on every reported solution, and an exact oracle checks pairwise non-overlap per state-variable instance in every reported solution of generated programs, in every configuration of the tier.",
         note=TB + "PARTIAL: the flaw/resolver search around the sweep is validated end to end (oracle), not modelled. get_current_incs itself is observed only through the solutions it lets through and the timelines.",
